@@ -1248,9 +1248,11 @@ package keyvalue
 //@   propagates [C14 C01] setFileTxn
 //@   propagates [C14] ReadDirNames
 //@   propagates [C14] Data
+//@   propagates [C14] getFile unless errIs(e, hackpadfs.ErrNotExist)
+//@   propagates [C14] Stat
 //@   propagates [C14] Commit
 //@   loop 1 modifies mapOf(ms(fs).records), held(ms(fs).mu), world()
-//@   loop 1 invariant "children-so-far-moved" !failed("Rename") && !failed("setFile") && !failed("setFileTxn") && !failed("ReadDirNames") && !failed("Data") && !failed("Commit") && !called("Commit")
+//@   loop 1 invariant "children-so-far-moved" !failed("Rename") && !failed("setFile") && !failed("setFileTxn") && !failed("ReadDirNames") && !failed("Data") && !failed("getFile") && !failed("Stat") && !failed("Commit") && !called("Commit")
 //@   loop 1 invariant "inv" fsOK(fs) && VP(oldname) && VP(newname) && rangeindex >= -1 && rangeindex < max(len(files), 1) && (len(files) > 0 || rangeindex == -1) && implies(isMem(fs), world() == old(world()))
 //@   ensures "gate" [C04 C05] implies(isMem(fs) && !VP(oldname) || !VP(newname), linkErr(err, oldname, newname) && errIs(err, hackpadfs.ErrInvalid) && memSame(fs) && world() == old(world()))
 //@   ensures "root" [C03] implies(isMem(fs) && rnValid(oldname, newname) && oldname == "." && newname != ".", linkErr(err, oldname, newname) && memSame(fs))
